@@ -33,6 +33,14 @@ def craft(path, spec):
         for k, v in (("name", "sec"), ("type", "t"), ("entity_id", str(uuid.uuid4())),
                      ("created_at", "20200101T000000"), ("updated_at", "20200101T000000")):
             sec.attrs[k] = v
+        if spec.get("linker"):
+            # another section, visited BEFORE "sec", whose `link` points at "sec": the properties are then first reached
+            # through /metadata/aaa/link/...
+            lk = md.create_group("aaa", track_order=True)
+            for k, v in (("name", "aaa"), ("type", "t"), ("entity_id", str(uuid.uuid4())),
+                         ("created_at", "20200101T000000"), ("updated_at", "20200101T000000")):
+                lk.attrs[k] = v
+            lk["link"] = sec
         pg = sec.create_group("properties", track_order=True)
         for p in spec["props"]:
             vt = {"int": np.int64, "float": np.float64, "bool": np.bool_, "str": VLEN}[p["vtype"]]
